@@ -1,4 +1,5 @@
 pub mod c01;
+pub mod c04;
 pub mod c09;
 pub mod c10;
 pub mod c12;
@@ -10,6 +11,7 @@ use crate::report::CaseOut;
 pub fn plan(prop: &str, tier: &str) -> Option<u64> {
     Some(match prop {
         "C01" => c01::plan(tier),
+        "C04" => c04::plan(tier),
         "C09" => c09::plan(tier),
         "C10" => c10::plan(tier),
         "C12" => c12::plan(tier),
@@ -22,6 +24,7 @@ pub fn plan(prop: &str, tier: &str) -> Option<u64> {
 pub fn run_case(prop: &str, tier: &str, seed: u64, idx: u64) -> CaseOut {
     match prop {
         "C01" => c01::run_case(tier, seed, idx),
+        "C04" => c04::run_case(tier, seed, idx),
         "C09" => c09::run_case(tier, seed, idx),
         "C10" => c10::run_case(tier, seed, idx),
         "C12" => c12::run_case(tier, seed, idx),
